@@ -77,6 +77,8 @@ def generate(ck):
         lo = tables.pressure_range(tab)[0]
         if p_f >= p_i:
             p_f = 0.5 * (p_i + lo)
+        if i % 5 == 2:
+            t = dict(t, rows=str(rng.choice(["descending", "shuffled"])), rows_seed=int(rng.integers(0, 10**6)))
         d = {"cls": "single", "table": t, "nx": nx, "p_i": p_i, "p_f": p_f, "r": r, "t_end": t_end, "levels": None, "ladder": bool(i % 4 == 0)}
         kind = i % 3
         if kind == 1 and not d["ladder"]:
@@ -95,11 +97,12 @@ def generate(ck):
 
 def table_inconsistency(fluid, tab, p_f, p_i):
     """delta from the columns alone (see module docstring)."""
-    P = np.asarray(tab["pressure"], dtype=float)
-    rho = np.asarray(tab["density"], dtype=float)
-    ms = np.asarray(fluid.pvt_props["m-scaled"], dtype=float)
-    al = np.asarray(fluid.pvt_props["alpha"], dtype=float)
-    a_i = float(fluid.alpha(float(fluid.m_i)))
+    order = np.argsort(np.asarray(tab["pressure"], dtype=float), kind="stable")
+    P = np.asarray(tab["pressure"], dtype=float)[order]
+    rho = np.asarray(tab["density"], dtype=float)[order]
+    ms = np.asarray(fluid.pvt_props["m-scaled"], dtype=float)[order]
+    al = np.asarray(fluid.pvt_props["alpha"], dtype=float)[order]
+    a_i = float(np.interp(float(fluid.m_i), ms, al))
     rho_i = float(np.interp(p_i, P, rho))
     lo = max(0, int(np.searchsorted(P, p_f, side="right")) - 1)
     hi = min(len(P) - 1, int(np.searchsorted(P, p_i, side="left")))
@@ -175,8 +178,7 @@ def run_case(ck, desc):
         return bool(plateau > 0), {"nx": nx, "rf_end": rf[-1], "plateau": plateau}
 
     fluid, tab = out["fluid"], out["tab"]
-    P = np.asarray(tab["pressure"], dtype=float)
-    rho = np.asarray(tab["density"], dtype=float)
+    P, rho = tables.sorted_columns(tab, "pressure", "density")
     p_i, p_f = out["p_i"], out["p_f"]
     levels = out["levels"]
     p_min = min(levels) if levels else p_f
@@ -226,11 +228,13 @@ def run_case(ck, desc):
             prev = float(m_lv[k])
     gap = float(np.max(np.abs(rf - rfd)))
     lad = np.linspace(float(m_lv.min()), m_i, 400)
-    av = np.asarray(fluid.alpha(lad), dtype=float)
+    o_ = np.argsort(np.asarray(fluid.pvt_props["m-scaled"], dtype=float), kind="stable")
+    ms_s, al_s = np.asarray(fluid.pvt_props["m-scaled"], dtype=float)[o_], np.asarray(fluid.pvt_props["alpha"], dtype=float)[o_]
+    av = np.interp(lad, ms_s, al_s)
     chi = float(av.max() / av.min())
     # the time-quadrature part of the constant belongs to the t^-1/2 flux transient at the fracture
     # face, whose amplitude scales with sqrt(diffusivity there / diffusivity at initial pressure)
-    a_f = float(av[0] / np.asarray(fluid.alpha(m_i), dtype=float))
+    a_f = float(av[0] / np.interp(m_i, ms_s, al_s))
     Kc = 2.0 + 1.25 * (Kc - 1.5) * max(1.0, math.sqrt(a_f))
     bound = (Kc / nx + 1.25 * delta + 0.6 * jump) * ceiling
     if not ck.margin("flux vs in-place gap <= first-order bound", gap, bound):
